@@ -99,7 +99,8 @@ Definition imp_events (l : list (name * bsrc)) : list (nat * import) :=
 
 (* ---------- stage 2: stage 1 + function and lambda scopes (no class, no comprehension) ----------
    def with decorators, all parameter kinds, defaults, annotations, return annotation, nested defs, closures,
-   lambdas with defaults.  Still only the shapes a fully executed program runs completely. *)
+   lambdas with defaults; docstring / string statements without doctest example and {brace} identifier.
+   Still only the shapes a fully executed program runs completely. *)
 Fixpoint s2_expr (e : expr) : bool :=
   match e with
   | ELoad _ _ => true
@@ -137,7 +138,8 @@ Fixpoint s2_stmt (x : stmt) : bool :=
   | SWith _ items b => forallb s2_with_item items && blk b
   | STry _ b hs o f => blk b && is_nil hs && blk o && blk f
   | SPass _ => true
-  | SAllAssign _ _ | SClass _ _ _ _ _ _ | SDoc _ _ _ => false
+  | SDoc _ ex br => is_nil ex && is_nil br         (* a plain docstring / string statement: no doctest example, no {brace} *)
+  | SAllAssign _ _ | SClass _ _ _ _ _ _ => false
   end.
 Definition s2_block (l : list stmt) : bool := forallb s2_stmt l.
 
@@ -239,7 +241,8 @@ Fixpoint s3_stmt (x : stmt) : bool :=
   | SWith _ items b => forallb s3_with_item items && blk b
   | STry _ b hs o f => blk b && is_nil hs && blk o && blk f
   | SPass _ => true
-  | SAllAssign _ _ | SClass _ _ _ _ _ _ | SDoc _ _ _ => false
+  | SDoc _ ex br => is_nil ex && is_nil br
+  | SAllAssign _ _ | SClass _ _ _ _ _ _ => false
   end.
 Definition s3_block (l : list stmt) : bool := forallb s3_stmt l.
 
